@@ -179,6 +179,14 @@ func (c *updater) setAuthExternal(config ConfigValueGetter, auth *hatypes.AuthEx
 			c.logger.Warn("skipping auth-url on %s: a globally configured auth-url is missing the namespace", url.Source.String())
 			return
 		}
+		if url.Source != nil && namespace != url.Source.Namespace {
+			// the backend may already exist because of a resource of that namespace:
+			// the cache says if the declaring resource can read a service from there
+			if _, err := c.cache.GetService(url.Source.Namespace, namespace+"/"+name); err != nil {
+				c.logger.Warn("skipping auth-url on %s: %v", url.Source.String(), err)
+				return
+			}
+		}
 		backend = c.haproxy.Backends().FindBackend(namespace, name, urlPort)
 		if backend == nil {
 			// warn was already logged in the ingress if a service couldn't be found,
